@@ -228,7 +228,9 @@ func fieldPath(path string) []string {
 	return strings.Split(path, ".")
 }
 
-func unmarshalJsonFile(path string, i interface{}) (err error) {
+// unmarshalJsonFile reads the json document stored at path into i. Whether the
+// file is compressed is told by the caller (schema), not guessed from its name
+func unmarshalJsonFile(path string, i interface{}, compressed bool) (err error) {
 	var data []byte
 	var in *os.File
 	var r io.Reader
@@ -239,7 +241,7 @@ func unmarshalJsonFile(path string, i interface{}) (err error) {
 	defer in.Close()
 
 	r = in
-	if strings.HasSuffix(path, compressedExtension) {
+	if compressed {
 		if r, err = gzip.NewReader(in); err != nil {
 			return
 		}
